@@ -2,7 +2,7 @@
 (***************************************************************************)
 (* Validates recorded histories of child operations on a real TagList / on *)
 (* a real Tag's children.  One record = one history:                       *)
-(*   hist : <<[op, exc, post, recv, resIsList, nodeok, childok]>>           *)
+(*   hist : <<[op, exc, post, recv, resIsList, nodeok, childok, lentSame]>> *)
 (* post = projection of the (possibly rebound) receiver after the step,    *)
 (* recv = projection of the object that was the receiver before the step.  *)
 (* Each step is judged from the logged state before it (trace-validation   *)
@@ -25,6 +25,9 @@ StepClauses(before, h) ==
      <<"C14:IsTagChildAcceptsWhatTheOperationsAccept", h.exc = "none" => h.childok>>,
      <<"C14:NonMutatingOperatorsReturnTagListAndLeaveOperandUnchanged",
           (h.op.act \in NonMutating /\ h.exc = "none") => (h.resIsList /\ Nodes(h.recv) = before)>>,
+     \* a TagList that was handed in as an argument is a list of its own: operations on other lists are not
+     \* operations on it, so its children are still the flattening of what IT was built from
+     <<"C14:ListsHandedInAsArgumentsKeepTheirOwnChildren", h.lentSame>>,
      <<"DRIFT:NormalizeCodeShape", Apply(before, h.op) = s>> >>
 
 RECURSIVE Walk(_, _, _)
